@@ -311,7 +311,36 @@ def check(pid, tier):
         violations.append((pid, f"trace rejected: {verdict} outcome={t['end']['out']} "
                                 f"features={features(t['cfg'])}", path))
     ev.cov["other_property_rejections"] = other
+    if pid == "C04":
+        connect_cycles(pid, tier, ev, rng, violations, machinery)
     return finish(pid, ev, out_lines, violations, machinery)
+
+
+def connect_cycles(pid, tier, ev, rng, violations, machinery):
+    """C04 also speaks about connect(): a cycle in the initial exchange of metadata / data that can not be
+    resolved must end in the circular-coupling error - never in another error or a connect loop that does
+    not terminate.  The shapes whose least fixpoint is incomplete (ConnectOps.StuckSet # {}) are enumerated
+    by TLC and connected with real components; the trace monitors give the verdict."""
+    from .fn_engine import run_cases
+    todo = [("ConnectStuckEmit", {"FAMILY": "ring2"}, "connect_run", "Connect_Trace", 500 if tier == "quick" else 6000),
+            ("Connect2Emit", {"FAMILY": "halfstuck"}, "connect2_run", "Connect2_Trace", 500 if tier == "quick" else None)]
+    for emit_mod, env, runner, monitor, cap in todo:
+        cases = tlc.emit(emit_mod, env)
+        if cap and len(cases) > cap:
+            cases = rng.sample(cases, cap)
+        traces = [t for t in run_cases(runner, "run_case", cases) if "harness_error" not in t]
+        acc, tot, bad, gen, _ = tlc.validate(monitor, traces)
+        ev.add_traces(f"{monitor}/unresolvable initial exchange", acc, tot, gen)
+        nstall = sum(1 for t in traces if t["end"]["out"] == "stall")
+        if nstall == 0:
+            machinery.append(f"vacuous: no stalled connect phase among the {emit_mod} shapes")
+        for k, verdict in sorted(bad.items()):
+            t = traces[k]
+            # only what C04 states: the outcome class of an unresolvable shape (hang guard = RuntimeError)
+            if t["end"]["out"] in ("ok", "stall"):
+                continue
+            path = save_replay(pid, {"kind": "connect-cycle", "verdict": verdict, "trace": t}) if len(violations) < 10 else "(not saved)"
+            violations.append((pid, f"unresolvable initial exchange not reported as circular coupling: {verdict} end={t['end']}", path))
 
 
 def has_topush(cfg):
@@ -458,6 +487,15 @@ def replay(pid, path):
             print(f"VIOLATION property={pid} replay={path}  # order-dependent outcome")
             return 1
         print("replayed pair of orders agrees")
+        return 0
+    if rp.get("kind") == "connect-cycle":
+        from .fn_engine import _run
+        two = "ports" in rp["trace"]["cfg"]["comps"][0]
+        t = _run(("connect2_run" if two else "connect_run", "run_case", rp["trace"]["cfg"]))
+        if t["end"]["out"] not in ("ok", "stall"):
+            print(f"VIOLATION property={pid} replay={path}  # unresolvable initial exchange ended with {t['end']['out']}")
+            return 1
+        print("replayed connect phase ended with the circular-coupling report")
         return 0
     if rp.get("kind") != "sched-trace":
         print(rp.get("output", "")[-3000:])
